@@ -215,6 +215,12 @@ impl<F: RichField + Extendable<D>, const D: usize> CircuitBuilder<F, D> {
         let mut current_log_n = self.constant(F::from_canonical_usize(params.config.rate_bits));
         current_log_n = self.add(current_log_n, current_degree_bits);
         let min_log_n_to_support = params.config.rate_bits + min_degree_bits_to_support;
+        if min_log_n_to_support == log_n {
+            // With a single supported length, the random accesses below ignore their index, so the
+            // claimed length has to be pinned here.
+            let expected_log_n = self.constant(F::from_canonical_usize(log_n));
+            self.connect(current_log_n, expected_log_n);
+        }
 
         with_context!(
             self,
